@@ -1,4 +1,4 @@
-import Iauthd.Proto.Table
+import Iauthd.Proto.Chunk
 /-
   Property C08 — "Arbitrary input cannot crash or derail the daemon" (model part).
 
@@ -18,6 +18,16 @@ theorem C08_no_fault (hasXq hasClass : Bool) (hdep : hasClass = true → hasXq =
 
 theorem C08_line_total (s : State) (hi : Inv s) (raw : Bytes) : ∃ res, stepLine s raw = .ok res :=
   stepLine_total s hi raw
+
+/-- the treatment of a byte stream does not depend on how it is cut into read() chunks: any
+    two segmentations with the same concatenation give the same final state and the same
+    output lines in the same order; in particular every prefix of a stream processes exactly
+    the complete lines of that prefix (the rest waits in the buffer) -/
+theorem C08_chunking (cs1 cs2 : List Bytes) (s : State) (hi : NoNL s.inbuf) (h : cs1.flatten = cs2.flatten) :
+    feedAll s cs1 = feedAll s cs2 := Iauthd.Proto.C08_chunking cs1 cs2 s hi h
+
+theorem C08_split (s : State) (a b' : Bytes) :
+    stepChunk s (a ++ b') = seq2 (stepChunk s a) (fun s1 => stepChunk s1 b') := stepChunk_append s a b'
 
 /-- non-vacuity: the only hypothesis (the class module is loaded together with xquery, as its
     constructor's `module_depends` enforces) holds for all three module sets of the daemon;
